@@ -200,6 +200,20 @@ let () =
       Printf.printf "%s %s end=%s first=%s token=%s second=%s\n" id (show_result o.ak_res) (string_of_z o.ak_time)
         (show_attempts bd.bdata o.ak_first) (show_attempts tb.bdata o.ak_token) (show_attempts bd.bdata o.ak_second)
     | [id; "I"; h] -> Printf.printf "%s %s\n" id (string_of_z (parse_int64 (str_of_hex h)))
+    | [id; "w"; pred; mr; mn; mx; tbl; dflt; cn; kind; body; script; _opts; tokbody; tokscript] ->
+      (* auth client with a warm Bearer cache (other scope key), token request of the third send modelled *)
+      let p = table_policy (parse_pred pred) (z_of_string mr) (z_of_string mn) (z_of_string mx)
+          (List.map z_of_string (split_on ',' tbl)) (z_of_string dflt) in
+      let bd = { bk = parse_kind kind; bdata = str_of_hex body } in
+      let tb = if tokbody.[0] = 'P'
+        then { bk = KReplay; bdata = str_of_hex (String.sub tokbody 1 (String.length tokbody - 1)) }
+        else { bk = KNone; bdata = [] } in
+      let sc = List.map parse_beh (split_on ';' script) in
+      let tsc = List.map parse_beh (split_on ';' tokscript) in
+      let o = auth_do_tokw_at p (parse_cancel cn) bd sc tb tsc Z0 in
+      Printf.printf "%s %s end=%s first=%s second=%s token=%s third=%s\n" id (show_result o.aw_res) (string_of_z o.aw_time)
+        (show_attempts bd.bdata o.aw_first) (show_attempts bd.bdata o.aw_second) (show_attempts tb.bdata o.aw_token)
+        (show_attempts bd.bdata o.aw_third)
     | [id; "Z"; pred; mr; mn; mx; tbl; dflt; cn; kind; body; script; _opts; tokbody; tokscript] ->
       (* blob push through the auth client, token requests modelled *)
       let p = table_policy (parse_pred pred) (z_of_string mr) (z_of_string mn) (z_of_string mx)
